@@ -131,19 +131,20 @@ type Request struct {
 
 // Outcome of one request.
 type Outcome struct {
-	Responded bool     `json:"responded"` // handler returned (normally or through its own recover)
-	Status    int      `json:"status"`    // HTTP status (200 when the handler never called WriteHeader)
-	BodyLen   int      `json:"body_len"`
-	Body      []byte   `json:"-"`
-	Panic     string   `json:"panic,omitempty"`      // panic escaped the handler: net/http would abort the connection without a response
-	PanicSite string   `json:"panic_site,omitempty"` // first repository frame of the panic
-	Hang      bool     `json:"hang,omitempty"`       // handler still running after the bound
-	HangSite  string   `json:"hang_site,omitempty"`
-	HangBusy  bool     `json:"hang_busy,omitempty"` // the handler goroutine was running (CPU-bound), not parked
-	Cancelled bool     `json:"cancelled,omitempty"` // the harness cancelled the request context
-	Leaked    []string `json:"leaked,omitempty"`    // repository functions of goroutines started during the request and still alive after the poll
-	Queries   int      `json:"queries"`
-	OpenRows  int64    `json:"open_rows,omitempty"` // driver.Rows never closed (connection leak; reported, not part of C12)
+	Responded    bool     `json:"responded"` // handler returned (normally or through its own recover)
+	Status       int      `json:"status"`    // HTTP status (200 when the handler never called WriteHeader)
+	BodyLen      int      `json:"body_len"`
+	Body         []byte   `json:"-"`
+	Panic        string   `json:"panic,omitempty"`         // panic escaped the handler: net/http would abort the connection without a response
+	PanicSite    string   `json:"panic_site,omitempty"`    // first repository frame of the panic
+	PanicHandler string   `json:"panic_handler,omitempty"` // outermost repository frame (the HTTP handler)
+	Hang         bool     `json:"hang,omitempty"`          // handler still running after the bound
+	HangSite     string   `json:"hang_site,omitempty"`
+	HangBusy     bool     `json:"hang_busy,omitempty"` // the handler goroutine was running (CPU-bound), not parked
+	Cancelled    bool     `json:"cancelled,omitempty"` // the harness cancelled the request context
+	Leaked       []string `json:"leaked,omitempty"`    // repository functions of goroutines started during the request and still alive after the poll
+	Queries      int      `json:"queries"`
+	OpenRows     int64    `json:"open_rows,omitempty"` // driver.Rows never closed (connection leak; reported, not part of C12)
 }
 
 // Bounds used by Do; generous against µs–ms normal latency (DESIGN.md §7 worker model).
@@ -189,7 +190,9 @@ func (h *Harness) Do(rq Request) Outcome {
 		defer func() {
 			if p := recover(); p != nil {
 				out.Panic = fmt.Sprint(p)
-				out.PanicSite = firstRepoFrame(string(stackOf()))
+				st := string(stackOf())
+				out.PanicSite = firstRepoFrame(st)
+				out.PanicHandler = outermostRepoFrame(st)
 			}
 		}()
 		h.Router.ServeHTTP(rec, req)
@@ -368,39 +371,44 @@ func curGoroutineHeader() string {
 	return ""
 }
 
-// hangSite says where the handler goroutine is when a request does not finish, and whether it is busy
-// (running / runnable: unbounded computation) or parked (blocked forever on a channel, lock, ...).
+// hangSite says where the handler goroutine is when a request does not finish, and whether it is still doing
+// something.  The goroutine is sampled three times 100 ms apart: parked on the very same stack every time =
+// blocked forever (busy=false); otherwise it is computing or making slow progress (busy=true).  The site is the
+// outermost repository function of the handler goroutine (the handler), which does not depend on the sample.
 func hangSite(handlerHdr string) (string, bool) {
-	censusMu.Lock()
-	n := runtime.Stack(censusBuf, true)
-	dump := string(censusBuf[:n])
-	censusMu.Unlock()
-	var others []string
-	for _, g := range strings.Split(dump, "\n\n") {
-		fn := firstRepoFrame(g)
-		if fn == "" {
-			continue
+	var blocks []string
+	site := ""
+	for i := 0; i < 3; i++ {
+		if i > 0 {
+			time.Sleep(100 * time.Millisecond)
 		}
-		if handlerHdr != "" && strings.HasPrefix(g, handlerHdr+" [") {
-			state := g[len(handlerHdr)+2:]
-			if i := strings.IndexAny(state, "],"); i >= 0 {
-				state = state[:i]
+		censusMu.Lock()
+		n := runtime.Stack(censusBuf, true)
+		dump := string(censusBuf[:n])
+		censusMu.Unlock()
+		for _, g := range strings.Split(dump, "\n\n") {
+			if handlerHdr != "" && strings.HasPrefix(g, handlerHdr+" [") {
+				if fn := outermostRepoFrame(g); fn != "" {
+					site = fn
+				}
+				// drop the header line (it carries the wait time in minutes)
+				if j := strings.IndexByte(g, '\n'); j >= 0 {
+					state := g[len(handlerHdr)+2 : j]
+					if k := strings.IndexAny(state, "],"); k >= 0 {
+						state = state[:k]
+					}
+					blocks = append(blocks, state+"\n"+g[j:])
+				}
 			}
-			busy := state == "running" || state == "runnable"
-			if busy {
-				// the innermost frame of a computing goroutine changes from sample to sample: name the
-				// outermost repository function (the handler) instead
-				fn = outermostRepoFrame(g)
-			}
-			return fn, busy
 		}
-		others = append(others, fn)
 	}
-	sort.Strings(others)
-	if len(others) > 0 {
-		return others[0], false
+	busy := len(blocks) < 3
+	for _, b := range blocks {
+		if b != blocks[0] || strings.HasPrefix(b, "running") || strings.HasPrefix(b, "runnable") {
+			busy = true
+		}
 	}
-	return "", false
+	return site, busy
 }
 
 // DoTail exercises the websocket route /loki/api/v1/tail over a real loopback HTTP server (the handler needs a
@@ -417,7 +425,9 @@ func (h *Harness) DoTail(rawQuery string, listen time.Duration) Outcome {
 			if p := recover(); p != nil {
 				panicMu.Lock()
 				out.Panic = fmt.Sprint(p)
-				out.PanicSite = firstRepoFrame(string(stackOf()))
+				st := string(stackOf())
+				out.PanicSite = firstRepoFrame(st)
+				out.PanicHandler = outermostRepoFrame(st)
 				panicMu.Unlock()
 				panic(http.ErrAbortHandler)
 			}
